@@ -104,5 +104,5 @@ Proof. exact ss_full_step_request_within. Qed.
    of the consist lies inside the limits the consist published for that step ---- *)
 Theorem C09_dispatched_train_request_within : forall fuel_bp fuel_steps (net : list LinkR) (tp : TPR) tl rp fmax fb st cache (con : ConsistR) x',
   sl_timed_walk fuel_bp fuel_steps net tp tl rp fmax fb st cache con = Ok x' -> cinv con ->
-  tw_trace fmax within_step ({| sl_st := st; sl_cache := cache; sl_fb := fb; sl_idx := 0 |}, con) x'.
+  tw_trace fmax any_pts within_step ({| sl_st := st; sl_cache := cache; sl_fb := fb; sl_idx := 0 |}, con) x'.
 Proof. exact sl_timed_walk_request_within. Qed.
